@@ -907,3 +907,26 @@ fn alloc_roots_replay() {
         println!("OBSERVED: {}", bad.join("; "));
     }
 }
+
+// ---------------------------------------------------------------------------------------------
+// E3u replay (C04): storage reachable only through thread-local slots survives the recycling of global slots
+// (the recycler's marking pass reaches only what the globals reach; the count that follows must not clear the rest).
+#[test]
+fn recount_replay() {
+    let mut engine = Engine::new();
+    engine
+        .run("(define tls-box (make-tls (box 42))) (define tls-vec (make-tls (mutable-vector 1 2 3))) (define tls-nested (make-tls (box (mutable-vector (box \"inner\")))))".to_string())
+        .unwrap();
+    for i in 0..150 {
+        engine.run(format!("(define heap-demo-shadowed-global {})", i)).unwrap();
+    }
+    let r = engine
+        .run("(list (unbox (get-tls tls-box)) (vector->list (get-tls tls-vec)) (unbox (vector-ref (unbox (get-tls tls-nested)) 0)))".to_string())
+        .map(|v| v.last().map(|x| x.to_string()).unwrap_or_default())
+        .map_err(|e| e.to_string());
+    if r == Ok("(42 (1 2 3) \"inner\")".to_string()) {
+        println!("COMPLETED: {:?}", r);
+    } else {
+        println!("OBSERVED: storage held only by thread-local slots changed across the recycling of global slots: {:?} instead of (42 (1 2 3) \"inner\")", r);
+    }
+}
